@@ -151,13 +151,32 @@ def gen_config_case(seed, idx):
     if r.random() < 0.25:
         ops.append({"op": "invoke", "cwd": ".", "argv": argv, "build_dir": "build", "label": "torn", "sched": gen.sched(rs),
                     "driver_fault": {"kind": r.choice(["torn_efbig", "torn_kill"]), "n": int(2 ** r.uniform(0, 13))}})
+    expected_by_label = {}
+    if r.random() < 0.35 and flag_o:
+        # an earlier invocation on the same build directory whose FLAGS carried other values: every message of
+        # the later invocation must be the later one's, not a leftover
+        prev_flags, prev_exp = dict(flag_o), dict(expected)
+        for f in sorted(flag_o):
+            if f in ("color_format", "output_file") or f not in BOUNDARY:
+                continue
+            pool = [p_ for p_ in BOUNDARY[f] if p_[0] != flag_o[f]]
+            if f == "family" and fmt.startswith("cff"):
+                pool = [p_ for p_ in pool if all(ord(ch) < 256 for ch in p_[0])]
+            if fmt in gen.BITMAP and f in ("upem", "width", "ascender", "descender", "bitmap_resolution"):
+                continue
+            if pool:
+                pv = r.choice(pool)
+                prev_flags[f], prev_exp[f] = pv[0], _exp(pv)
+        if prev_exp.get("ascender", 950) - prev_exp.get("descender", -250) > 0:
+            ops.append({"op": "invoke", "cwd": ".", "argv": gen.flag_args(prev_flags) + ["config.toml"], "build_dir": "build", "label": "prev", "sched": gen.sched(rs)})
+            expected_by_label["prev"] = prev_exp
     ops.append({"op": "invoke", "cwd": ".", "argv": argv, "build_dir": "build", "label": "build", "sched": gen.sched(rs), "final": True})
     cid = "c10-%d-c%d" % (seed, idx)
     job = {"id": cid + ".j0", "root_id": "c10/%d/c%d" % (seed, idx), "hashseed": H(seed, "c10c", idx) % 4294967296,
            "clock_seed": idx, "readdir_seed": H(seed, "c10c", idx, "rd") % (1 << 31), "keep_trace": True, "ops": ops}
     return {"id": cid, "jobs": [job], "meta": {"kind": "config", "fmt": fmt, "vf": vf, "expected": expected, "flag": sorted(flag_o),
                                                "file": sorted(file_o), "user_config": "config.toml", "masters": expected_masters, "axes": expected_axes,
-                                               "stems": None, "expect_build": True}}
+                                               "stems": None, "expect_build": True, "expected_by_label": expected_by_label}}
 
 
 def long_sequence(r, n):
@@ -350,7 +369,7 @@ def monitors(inv, meta, root_hint=None):
                 if t["parts"]["sha"] not in sent_parts[rel]:
                     out.append({"class": "handoff-mismatch", "detail": {"what": "reusable parts changed between writer and reader", "step": steps[t["proc"]]["rule"] if t["proc"] in steps else t["proc"], "file": rel}})
     # resolution: flag > file > default, as seen by the driver
-    exp = meta.get("expected") or {}
+    exp = (meta.get("expected_by_label") or {}).get(inv.get("label")) or meta.get("expected") or {}
     for t in driver_loads:
         cfg = t["cfg"]
         counts["resolution"] += 1
